@@ -5,8 +5,8 @@ COMPONENTS_COMMON_STUB = []
 PROPS = {
     "C15": dict(
         level="fault_enumeration",
-        quick=dict(runs=64, env={"VERIF_C15_PARTS": "64"}),
-        thorough=dict(runs=256, env={"VERIF_C15_PARTS": "256"}),
+        quick=dict(runs=64, env={"VERIF_C15_PARTS": "64", "VERIF_WARMUP": "0"}),
+        thorough=dict(runs=256, env={"VERIF_C15_PARTS": "256", "VERIF_WARMUP": "0"}),
         exhaustive=True,
         rule=("bounded-exhaustive: every string of length <= L (quick 6, thorough 8) over {LF, CR, 'a', the two bytes "
               "of a 2-byte UTF-8 rune} x every chunking into reads (2^(n-1)) x read-buffer sizes {1,2,3,5,8,4096} x reader "
@@ -177,5 +177,36 @@ PROPS = {
         expect_probes=["load_overlapped_lines", "other_same-name-same-kind", "other_same-name-float", "other_same-name-other-keys", "other_kind-conflict", "other_broken", "other_runtime-errors", "other_hidden-same-name", "other_gauge-same-name"],
         real=["runtime.Runtime", "metrics.Store", "vm.VM (one goroutine per program)", "exporter.Exporter (Collect, Write)", "prometheus.Registry.Gather + expfmt"],
         stub=[],
+    ),
+    "C19": dict(
+        level="exploration",
+        quick=dict(runs=3000),
+        thorough=dict(runs=100000),
+        rule=("each run = the whole server in one-shot mode: a witness program (counts every line, every line per getfilename(), and per file how many "
+              "numbered lines arrived after a smaller number) plus 0-3 interleaving-insensitive programs, and 1-3 generated log files (0-12 lines: "
+              "numbered, empty, CRLF, optionally a final line without newline; empty files), given by name or by one glob; all goroutines of tailer, "
+              "streams, forwarders, fan-out and VMs under the seeded scheduler (1 run in 3 with statement-level preemption). Oracle: Run returns within "
+              "the step budget and no task remains; counts equal the harness's own split of the file contents; the extra programs' final metrics equal "
+              "a sequential run of the same programs file by file. Non-trivial: >= 2 files and >= 4 lines; distinct = distinct (files, programs, schedule)."),
+        assumptions=["the extra programs are insensitive to how different files' lines interleave, so 'an interleaving that keeps each file's order' is checked through per-file order witnesses plus a sequential reference"],
+        expect_probes=[],
+        real=["mtail.Server (New with OneShot, Run)", "tailer.Tailer", "logstream.fileStream (one-shot)", "runtime.Runtime", "vm.VM", "metrics.Store", "compiler", "kernel filesystem"],
+        stub=[],
+    ),
+    "C25": dict(
+        level="exploration",
+        quick=dict(runs=2500),
+        thorough=dict(runs=80000),
+        rule=("each run = the whole server (not one-shot) with simulated pollers: a witness program loaded for the whole run, programs errp/divp whose "
+              "runtime errors are a harness-computable function of the line, 1-2 logs, and 2-9 actions from {append 1-4 lines, rotate, truncate, "
+              "delete/recreate a log; write a valid / broken / kind-conflicting version of a program, remove it, reload} each followed by an "
+              "observation. After every action: lines_total, log_lines_total[f], prog_runtime_errors_total[p], prog_loads/unloads/load_errors_total[p] "
+              "and log_count (read as deltas) must equal the harness's own event counts and the witness program's counters. Non-trivial: lines flowed "
+              "and a program or log-file event happened; distinct = distinct (history, schedule signature)."),
+        assumptions=["all appended lines are newline-terminated and histories stay within C16's premises", "expvars are process-global: one run at a time per process, read as deltas",
+                     "reloads are requested through LoadAllPrograms via a generated accessor (verif build tag) for the server's runtime"],
+        expect_probes=["runtime_error_strtol", "runtime_error_div0", "prog_valid", "prog_broken", "prog_refused", "prog_removed", "rotate", "truncate", "delete_log"],
+        real=["mtail.Server (New, Run)", "tailer + file streams", "runtime + VMs", "exporter.New (no push)", "expvar counters"],
+        stub=["waker.Waker (simulated ticks)"],
     ),
 }
